@@ -73,6 +73,8 @@ def nested_templates():
 
 
 def run(ctx, log):
+    # the same small programs at every size around the widths the implementation encodes things in (closed-form results)
+    progcheck.run_scale(ctx, log, ['locals'])
     rng = ctx.rng
     n = 500 if ctx.quick else 8000
     srcs, asts = progcheck.gen_sources(ctx, n, max_depth=3, floats=False)
